@@ -27,7 +27,7 @@ def reduction(prog, size=None, user=None):
     ev = Evaluator(prog)
     args = {"sequence": SeqV("seq")}
     if size is not None:
-        args["alphabetSize"] = Rat.const(size)
+        args["alphabetSize"] = size if isinstance(size, str) else Rat.const(size)
     if user is not None:
         args["userAlphabet"] = user
     paths = ev.run_function(f, args, ObjV("SequenceComplexity"))
@@ -98,6 +98,7 @@ def run(ck, prog):
               note="the returned alphabet lists exactly the representatives")
     ck.count("(size, residue) cells", cells)
     ck.floor("(size, residue) cells", cells, 240)
+    ck.attempt(_string_sizes, ck, prog, f, construct)
     ck.sample({"size": 6, "map": reduction(prog, size=6)[1]})
     ck.attempt(_size_guard, ck, prog, f, construct)
     ck.attempt(_user, ck, prog, f, construct)
@@ -112,6 +113,22 @@ def run(ck, prog):
             a = b.get("sequence") if b else None
             ck.shape(a is not None, "get_reducedAlphabetSequence: sequence argument bound", g.loc(r))
             ck.ob("BIND-api", g.mod.relpath + ":" + g.qual, unparse(a) == "self.seq", expected="sequence = self.seq", found=unparse(a), slot="sequence", where=g.loc(r))
+
+
+def _string_sizes(ck, prog, f, construct):
+    """a size given as a string that converts to an integer ('5') is a documented way of asking for that alphabet: sequence map and alphabet
+    list must be those of the integer"""
+    n = 0
+    for size in SIZES:
+        ri = reduction(prog, size=size)
+        rs = reduction(prog, size=str(size))
+        same = ri[0] == rs[0] == "ok" and ri[1] == rs[1] and (ri[2] is not None and rs[2] is not None and list(map(str, ri[2])) == list(map(str, rs[2])))
+        ck.ob("DT-size", construct, same, expected="size '%d' (a string) gives the reduction and the alphabet of size %d" % (size, size),
+              found={"map_equal": ri[0] == rs[0] == "ok" and ri[1] == rs[1], "alphabet_for_string": None if rs[0] != "ok" or rs[2] is None else sorted(map(str, rs[2])),
+                     "alphabet_for_integer": None if ri[0] != "ok" or ri[2] is None else sorted(map(str, ri[2]))}, slot="size='%d'" % size, where=f.loc(),
+              note="the size is converted with int() before anything is looked up")
+        n += 1
+    ck.count("string sizes compared", n)
 
 
 def _size_guard(ck, prog, f, construct):
